@@ -708,3 +708,78 @@ Lemma nonvacuous_symbols :
   /\ sorted_strict [([97], [109; 49]); (metric_name, [109; 49])] = false
   /\ sorted_strict [(metric_name, [109; 49]); ([97], [109; 49])] = true.
 Proof. vm_compute. repeat split. Qed.
+
+(* ---------- histogram codec ---------- *)
+Lemma wire_f_id : forall v, v <> negzero -> wire_f v = v.
+Proof. intros v H. unfold wire_f. destruct (v =? negzero) eqn:E; [apply Z.eqb_eq in E; contradiction | reflexivity]. Qed.
+
+Definition wire_safe (h : ghist) : Prop := g_sum h <> negzero /\ g_zt h <> negzero.
+
+Lemma codec_roundtrip_int : forall st ts h, g_float h = false -> wire_safe h ->
+  let p := transmit (from_int st ts h) in
+  to_int p = Some h /\ is_float_hist p = false /\ p_ts p = ts /\ p_st p = st.
+Proof.
+  intros st ts h F [S1 S2]. destruct h; simpl in *. subst.
+  unfold to_int, transmit, from_int; simpl. rewrite (wire_f_id _ S1), (wire_f_id _ S2). auto.
+Qed.
+
+Lemma codec_roundtrip_float : forall st ts h, g_float h = true -> wire_safe h ->
+  let p := transmit (from_float st ts h) in
+  to_float p = h /\ to_int p = None /\ is_float_hist p = true /\ p_ts p = ts /\ p_st p = st.
+Proof.
+  intros st ts h F [S1 S2]. destruct h; simpl in *. subst.
+  unfold to_float, to_int, transmit, from_float; simpl. rewrite (wire_f_id _ S1), (wire_f_id _ S2). auto.
+Qed.
+
+(* negative zero in a scalar double field does not survive *)
+Definition w_negz_hist : ghist := mkGH true 0 0 0 0 0 negzero [] [] [] [] [].
+Lemma codec_negzero_refuted :
+  wire_f negzero <> negzero /\
+  g_float w_negz_hist = true /\ to_float (transmit (from_float 0 0 w_negz_hist)) <> w_negz_hist.
+Proof. split; [vm_compute; discriminate|]. split; [reflexivity|]. vm_compute. discriminate. Qed.
+
+(* the float view of an integer histogram: bucket counts are the partial sums of the deltas
+   (exactly, while they stay below 2^53 in absolute value) *)
+Fixpoint psums (cur : Z) (ds : list Z) : list Z :=
+  match ds with [] => [] | d :: r => (cur + d) :: psums (cur + d) r end.
+Definition small (x : Z) : Prop := Z.abs x < 9007199254740992.
+Lemma rnd53_small : forall x, small x -> rnd53 x = x.
+Proof. intros x H. unfold rnd53. destruct (Z.abs x <? 9007199254740992) eqn:E; [reflexivity|]. apply Z.ltb_ge in E. unfold small in H. lia. Qed.
+Lemma deltas_to_counts_exact : forall ds cur, Forall small ds -> Forall small (psums cur ds) ->
+  deltas_to_counts cur ds = map bits_exact (psums cur ds).
+Proof.
+  induction ds as [|d r IH]; intros cur H1 H2; simpl; auto.
+  inversion H1; subst. simpl in H2. inversion H2; subst.
+  rewrite (rnd53_small d) by assumption. rewrite (rnd53_small (cur + d)) by assumption.
+  f_equal. apply IH; assumption.
+Qed.
+Lemma int_to_float_view : forall st ts h, g_float h = false ->
+  Forall small (g_pb h) -> Forall small (psums 0 (g_pb h)) ->
+  Forall small (g_nb h) -> Forall small (psums 0 (g_nb h)) ->
+  let f := to_float (transmit (from_int st ts h)) in
+  g_float f = true /\ g_hint f = g_hint h /\ g_schema f = g_schema h /\ g_zt f = wire_f (g_zt h)
+  /\ g_sum f = wire_f (g_sum h) /\ g_zc f = z2f (g_zc h) /\ g_count f = z2f (g_count h)
+  /\ g_pspans f = g_pspans h /\ g_nspans f = g_nspans h /\ g_custom f = g_custom h
+  /\ g_pb f = map bits_exact (psums 0 (g_pb h)) /\ g_nb f = map bits_exact (psums 0 (g_nb h)).
+Proof.
+  intros st ts h F P1 P2 N1 N2. destruct h; simpl in *. subst.
+  unfold to_float, transmit, from_int; simpl.
+  rewrite (deltas_to_counts_exact _ 0 P1 P2), (deltas_to_counts_exact _ 0 N1 N2).
+  repeat split; reflexivity.
+Qed.
+Lemma nonvacuous_codec :
+  let h := mkGH false 2 3 4562254508917369340 1 6 4617315517961601024 [(0, 2)] [2; 1] [(-1, 1)] [3] [] in
+  wire_safe h /\ g_pb (to_float (transmit (from_int 7 1000 h))) = [4611686018427387904; 4613937818241073152]
+  /\ z2f 9007199254740993 = 4845873199050653696 /\ z2f 18446744073709551615 = 4895412794951729152.
+Proof. vm_compute. repeat split; discriminate. Qed.
+
+Lemma codec_roundtrip : forall st ts h, wire_safe h ->
+  (g_float h = false ->
+     let p := transmit (from_int st ts h) in
+     to_int p = Some h /\ is_float_hist p = false /\ p_ts p = ts /\ p_st p = st) /\
+  (g_float h = true ->
+     let p := transmit (from_float st ts h) in
+     to_float p = h /\ to_int p = None /\ is_float_hist p = true /\ p_ts p = ts /\ p_st p = st).
+Proof.
+  intros st ts h S. split; intros F; [apply codec_roundtrip_int | apply codec_roundtrip_float]; assumption.
+Qed.
